@@ -217,8 +217,9 @@ impl World {
         let v5 = !self.cfg.mqtt311;
         let props = if v5 { Some(vec![("m".to_string(), marker.to_string())]) } else { None };
         let (pkt, ptype_n) = match &pending.kind {
-            PendKind::Puback => (Pkt::Puback(VAck { packet_id: pending.id, reason_code: if fail { 0x80 } else { 0 }, reason_string: None, user_properties: props }), 4u8),
-            PendKind::Pubrec => (Pkt::Pubrec(VAck { packet_id: pending.id, reason_code: if fail { 0x80 } else { 0 }, reason_string: None, user_properties: props }), 5),
+            // success comes in two flavours in MQTT 5: 0x00 and 0x10 (no matching subscribers); even packet ids get the second one
+            PendKind::Puback => (Pkt::Puback(VAck { packet_id: pending.id, reason_code: if fail { 0x80 } else if v5 && pending.id % 2 == 0 { 0x10 } else { 0 }, reason_string: None, user_properties: props }), 4u8),
+            PendKind::Pubrec => (Pkt::Pubrec(VAck { packet_id: pending.id, reason_code: if fail { 0x80 } else if v5 && pending.id % 2 == 0 { 0x10 } else { 0 }, reason_string: None, user_properties: props }), 5),
             PendKind::Pubcomp => (Pkt::Pubcomp(VAck { packet_id: pending.id, reason_code: if fail { 0x92 } else { 0 }, reason_string: None, user_properties: props }), 7),
             PendKind::Suback(n) => (Pkt::Suback(VMultiAck { packet_id: pending.id, reason_string: None, user_properties: props, reason_codes: (0..*n).map(|i| if fail { 0x80 } else { (i % 2) as u8 }).collect() }), 9),
             PendKind::Unsuback(n) => (Pkt::Unsuback(VMultiAck { packet_id: pending.id, reason_string: None, user_properties: props, reason_codes: if v5 { (0..*n).map(|i| if fail { 0x80 } else if i % 2 == 1 { 0x11 } else { 0 }).collect() } else { Vec::new() } }), 11),
@@ -305,6 +306,8 @@ impl World {
             }
             _ => {}
         }
+        // a packet larger than the maximum packet size the client announced is a protocol violation by the server
+        if let Some(limit) = self.cfg.client_maximum_packet_size { if !self.cfg.mqtt311 && bytes.len() as u64 > limit as u64 { expect_error = true; expect_surface = None; } }
         let Some((result, surfaced)) = self.deliver(&bytes, false, &format!("inbound {:?}", index)) else { return; };
         let surfaced_publishes: Vec<&VPublish> = surfaced.iter().filter_map(|p| if let Pkt::Publish(p) = p { Some(p) } else { None }).collect();
         if expect_error {
@@ -331,6 +334,37 @@ impl World {
                     (None, n) => { self.violate("C05", "duplicate-qos2-surfaced", format!("inbound {:?} surfaced {} times although already delivered and not released", pkt, n)); }
                 }
             }
+        }
+        self.drain_completions_pub("inbound");
+    }
+
+    /// two plain publishes (no alias) in one read: both are handled, surfaced in wire order
+    pub(super) fn ev_inbound_pair(&mut self, i: usize, j: usize) {
+        let mut bytes = Vec::new();
+        let mut expected: Vec<VPublish> = Vec::new();
+        for index in [i, j] {
+            let pkt = self.cfg.inbound[index].clone();
+            bytes.extend(self.encode_reply(&pkt));
+            let Pkt::Publish(p) = pkt else { continue; };
+            let fresh = p.qos < 2 || !self.inbound_q2_open.contains(&p.packet_id);
+            if p.qos == 2 { self.inbound_q2_open.insert(p.packet_id); }
+            let conn = self.conn.as_mut().unwrap();
+            conn.inbound_sent += 1;
+            match p.qos { 0 => {} 1 => conn.owed_acks.push_back((4, p.packet_id)), _ => conn.owed_acks.push_back((5, p.packet_id)) }
+            if fresh { expected.push(p); }
+        }
+        let Some((result, surfaced)) = self.deliver(&bytes, false, &format!("inbound {:?}+{:?} in one read", i, j)) else { return; };
+        let surfaced_publishes: Vec<&VPublish> = surfaced.iter().filter_map(|p| if let Pkt::Publish(p) = p { Some(p) } else { None }).collect();
+        self.result_common("incoming(inbound)", &result, false);
+        if result.is_ok() {
+            let same = |a: &VPublish, b: &VPublish| a.topic == b.topic && a.payload == b.payload && a.qos == b.qos;
+            let in_order = surfaced_publishes.len() == expected.len() && surfaced_publishes.iter().zip(expected.iter()).all(|(a, b)| same(a, b));
+            if !in_order {
+                let reversed = surfaced_publishes.len() == expected.len() && surfaced_publishes.iter().rev().zip(expected.iter()).all(|(a, b)| same(a, b));
+                if reversed { self.violate("C05", "surfaced-out-of-wire-order", format!("two publishes in one read surfaced as {:?}, wire order {:?}", surfaced_publishes.iter().map(|p| (p.qos, p.packet_id)).collect::<Vec<_>>(), expected.iter().map(|p| (p.qos, p.packet_id)).collect::<Vec<_>>())); }
+                else { self.violate("C05", format!("not-surfaced-once n={}", surfaced_publishes.len()), format!("two publishes in one read: surfaced {:?}, reference {:?}", surfaced_publishes.iter().map(|p| (p.qos, p.packet_id)).collect::<Vec<_>>(), expected.iter().map(|p| (p.qos, p.packet_id)).collect::<Vec<_>>())); }
+            }
+            self.surfaced_publishes += surfaced_publishes.len() as u32;
         }
         self.drain_completions_pub("inbound");
     }
